@@ -9,6 +9,8 @@ from .iter_rules import *
 
 def run(chk, ctx):
     P = Prog(ctx["facts"])
+    from .iter_rules import plumbing_rule
+    plumbing_rule(chk, P, {"ParsedTestCase": ("read_outputs",), "TestCase": ("read_outputs",)})   # what the parser / the binding produced is what runs
     # "variables shadow outputs" holds only while the real variable map is the active one: the exchange made for
     # virtual-signal evaluation must be undone on every path (shared with C14 / C18)
     swap_pair_rule(chk, P)
